@@ -9,7 +9,8 @@ script means "would block").  What the class does with a raised fault comes from
 source on every run (`Gen/TcpFaults.lean`); none of the theorems below depends on the content of those tables except
 `receives_all`/`wouldblock_is_benign`, which are re-checked against them by `decide`.
 
-`run c ops` is the connection after the call history `ops` (`tx d`, `serviceSends`, `serviceReceives`, `service`, and
+`run c ops` is the connection after the call history `ops` (`tx d`, `serviceSends`, `serviceReceives`,
+`serviceReceiveOnce`, `clearRxbs`, `service`, and
 `rst`: the peer resets the connection — queued bytes are still delivered but `getpeername()` fails from then on);
 `kacc` / `kdel` are ghost fields: the bytes the kernel has accepted from / delivered to the object — what the peer can
 ever have seen, and what actually arrived.  All statements are for every history, payload sequence, script and class, under the guard `wl = false ∨ PeerSafe kind`:
@@ -34,10 +35,12 @@ theorem peer_has_prefix (kind : Kind) (wl : Bool) (sends : List SResp) (recvs : 
     (run (init kind wl sends recvs) ops).kacc <+: payload ops :=
   ⟨_, stream_prefix kind wl sends recvs ops hs⟩
 
-/-- C09.2 the receive buffer holds exactly the bytes `recv` delivered, in order (short reads, EOF, faults included) -/
+/-- C09.2 what the application took out with `clearRxbs()` followed by the receive buffer is exactly the bytes `recv`
+delivered, in order (short reads, EOF, faults, `serviceReceives` and `serviceReceiveOnce` in any mix) -/
 theorem rx_exact (kind : Kind) (wl : Bool) (sends : List SResp) (recvs : List RResp) (ops : List Op)
     (hs : wl = false ∨ PeerSafe kind) :
-    (run (init kind wl sends recvs) ops).rxbs = (run (init kind wl sends recvs) ops).kdel :=
+    (run (init kind wl sends recvs) ops).cleared ++ (run (init kind wl sends recvs) ops).rxbs =
+      (run (init kind wl sends recvs) ops).kdel :=
   (run_inv ops (init_inv kind wl sends recvs hs)).rx
 
 /-- C09.3 an attached wire log records exactly the bytes actually sent and actually received -/
